@@ -291,6 +291,23 @@ pub fn check_versions_ext(txn: &Transaction, model: &VersionModel, all_ts: &[u64
 			}
 		}
 	}
+	// plain (current-state) reads after all the history scans: what those left in the caches
+	// must not change them. Judged only where commit order and timestamp order agree.
+	for k in [b"a" as &[u8], b"b"] {
+		let vs = model.keys.get(k).cloned().unwrap_or_default();
+		if vs.windows(2).any(|w| w[1].ts < w[0].ts) {
+			continue;
+		}
+		let exp = vs.last().and_then(|x| if x.tomb { None } else { Some(x.value.clone()) });
+		match txn.get(k) {
+			Ok(got) => {
+				if got != exp {
+					return Some(("plain-get-after-history".into(), format!("get({}) after the history scans = {:?}, expected {:?}", hex(k), got.map(|v| String::from_utf8_lossy(&v).to_string()), exp.map(|v| String::from_utf8_lossy(&v).to_string()))));
+				}
+			}
+			Err(e) => return Some(("plain-get-error".into(), format!("get({}): {e}", hex(k)))),
+		}
+	}
 	None
 }
 
